@@ -63,7 +63,7 @@ class IntegerConvertor(Convertor[int]):
 
 @mypyc_attr(allow_interpreted_subclasses=True)
 class DecimalConvertor(Convertor[Decimal]):
-    regex = "[0-9]+(.[0-9]+)?"
+    regex = r"[0-9]+(\.[0-9]+)?"
 
     def to_python(self, value: str) -> Decimal:
         return Decimal(value)
